@@ -527,6 +527,8 @@ class Check(PropertyCheck):
             'ellipse annulus, rotated rectangle, polygon with 3..9 vertices, regular polygon) mixed so that X/Y/R need '
             'padding, plus ~10% unrepresentable ones (sky regions, line, text, rectangle annulus, compound); '
             'coordinates/sizes/angles: dyadic lattice, random doubles, integers, zeros, magnitudes 1e-8..1e8; '
+            'rotation angles in deg/rad/arcmin/arcsec/hourangle: all degrees, one unit per list, or mixed within the list '
+            '(first row with no angle / with another unit than the rest); '
             'include in {absent, True, False, 0, 1} (per-list modes), component in {absent, ints (duplicates allowed), '
             'partially present}; every list goes through the in-memory table AND a real file in a temp dir; '
             'reader side: tables in box/rotbox/rectangle/rotrectangle and all other notations, padded or not, '
@@ -550,7 +552,8 @@ class Check(PropertyCheck):
         'the astropy file layer law itself (table in = table out; object columns are not writable) - a hypothesis '
         'of the file theorems, validated on every generated case',
         'AstropyUserWarning texts/categories of the skipped regions (compared with the model on every case)',
-        'pixel / degree units of the written columns (oracle on every case)',
+        'pixel units of X/Y/R and an angular unit on ROTANG (oracle on every case); astropy Quantity unit conversion '
+        'itself (a parameter: value x ratio of scales; validated to 1e-12 relative wherever it happens)',
         'reading conventions for shapes other than the box family are tied to the model by the correspondence '
         'run and to the property by the round-trip/fixed-point theorems only',
     ]
